@@ -111,13 +111,26 @@ func planC12(tier string, root *simcore.RNG) *plan {
 		every := thorough && e.kind == "script3" && e.sink == "stl" && e.n <= 300
 		budgets := fsizeBudgets(expect, every)
 		if expect == 0 {
-			// size unknown in advance: flush-granular budgets up to 64 KiB (fired budgets are counted from the runs)
+			// size unknown in advance: flush-granular budgets up to 128 KiB (fired budgets are counted from the runs)
 			budgets = fsizeBudgets(0, false)
 			if !thorough {
-				budgets = thinInt64(budgets, 3)
+				budgets = thinInt64(budgets, 2)
 			}
-		} else if !thorough {
-			budgets = thinInt64(budgets, 2)
+		}
+		// plus seeded offsets that are not aligned to anything ("at any byte offset")
+		{
+			rb := root.Fork()
+			lim := expect
+			if lim <= 0 {
+				lim = 96 << 10
+			}
+			nrand := 16
+			if thorough {
+				nrand = 120
+			}
+			for i := 0; i < nrand; i++ {
+				budgets = append(budgets, int64(rb.Intn(int(lim)+1)))
+			}
 		}
 		var faults []Fault
 		faults = append(faults, Fault{Kind: "nodir"}, Fault{Kind: "isdir"}, Fault{Kind: "devfull"}, Fault{Kind: "vanish"})
